@@ -26,6 +26,8 @@ HARNESSES = [
  _w('where_21s', 'view::where(condition 2-d, x 1-d, y scalar); ' + SYM), _w('where_122', 'view::where(condition 1-d, x 2-d, y 2-d); ' + SYM),
  _w('where_mixed', 'view::where(condition unsigned[n], x int[n], y long scalar), n 1..MAXE, data/scalar/index symbolic; element type long',
     quick=[_c(3, KF_C07_WHERE_SCALAR=1)], thorough=[_c(4, KF_C07_WHERE_SCALAR=1)]),
+ _w('where_mixed_xy', 'view::where(condition unsigned[n], x int[n], y long[n]): three ARRAY operands, n 1..MAXE, all data/index symbolic; declared element type 8 bytes, value c ? (long)x : y', quick=[_c(3)], thorough=[_c(4)]),
+ _w('where_mixed_yx', 'view::where(condition unsigned[n], x long[n], y int[n]): mirrored', quick=[_c(3)], thorough=[_c(4)]),
  _w('clip_sss', 'clip_t functor through view::ufunc on three symbolic scalars (the only instantiable form, see OUTSIDE)'),
  _w('outer_sub_21', 'view::outer_subtract(2-d, 1-d); ' + SYM), _w('outer_sub_12', 'view::outer_subtract(1-d, 2-d); ' + SYM),
 ]
